@@ -99,8 +99,7 @@ def run(tier, replay=None):
                             "states/transitions = XLang small steps evaluated by TLC (fold mode)",
                             "exit value compared as the full 32-bit word returned by hexsim::Processor::run"]
         indomain = sum(1 for v in verd[:-1] if v['v'] != 'skip')
-        if indomain < 0.4 * len(cases):
-            raise vlib.MachineryError("vacuity: only %d of %d programs were inside the definition's domain" % (indomain, len(cases)))
+        chk.vacuity(indomain < 0.4 * len(cases), "only %d of %d programs were inside the definition's domain" % (indomain, len(cases)))
     finally:
         shutil.rmtree(d, ignore_errors=True)
     return chk.finish()
